@@ -572,6 +572,15 @@ func (c *channel) writeOnce() {
 	defer func() {
 		if err := recover(); nil != err {
 			atomic.StoreInt32(&c.running, idle)
+			// the transport failed: the packets still queued can no longer be sent,
+			// and Close waits until the queue is empty.
+			for pending := true; pending; {
+				select {
+				case <-c.writeQueue:
+				default:
+					pending = false
+				}
+			}
 			c.Close(AsException(err))
 		}
 	}()
